@@ -58,6 +58,7 @@ IndTree = _create("C17IndTree", gp.PrimitiveTree, fitness=FitMin)
 import array as _array  # noqa: E402
 IndCMA = _create("C17IndCMA", _array.array, typecode="d", fitness=FitMin)      # array-based individual
 IndCMA2 = _create("C17IndCMA2", list, fitness=FitMin2)
+IndTyped = _create("C17IndTyped", gp.PrimitiveTree, fitness=FitMin)
 IndNP32 = _create("C17IndNP32", numpy.ndarray, fitness=FitMin)                 # float32 numpy individual
 
 # ----------------------------------------------------------------------------------------------------
@@ -321,6 +322,7 @@ class SPEA2(Family):
 class NSGA3Mem(Family):
     name = "nsga3_mem"
     N, MU = 6, 12
+    NGEN = 6           # a stale selector memory shows only some generations after a restore
     SMALL = {"MU": 4}
 
     def setup(self):
@@ -358,6 +360,7 @@ class GPEph(Family):
     name = "gp_eph"
     MU = 12
     NGEN = 6
+    HASH_SENSITIVE = True
     SMALL = {"MU": 4}
 
     def setup(self):
@@ -406,6 +409,186 @@ class GPEph(Family):
         st["population"] = off
         self.record(st, off, n)
         return st
+
+
+# ---- 5a. strongly typed GP with a TYPE HIERARCHY (bool < int) and a user-defined type ----------------------------
+
+class Level(object):
+    """A user-defined GP type (its class object lives on the heap, unlike bool / int)."""
+
+    def __init__(self, v):
+        self.v = int(v) % 3
+
+    def __repr__(self):
+        return "Level(%d)" % self.v
+
+
+class Shade(object):
+    def __init__(self, v):
+        self.v = int(v) % 2
+
+    def __repr__(self):
+        return "Shade(%d)" % self.v
+
+
+class Tone(object):
+    def __init__(self, v):
+        self.v = bool(v)
+
+    def __repr__(self):
+        return "Tone(%r)" % self.v
+
+
+def shade_of(x):
+    return Shade(x)
+
+
+def shade_add(s, x):
+    return int(x) - s.v
+
+
+def tone_of(b):
+    return Tone(b)
+
+
+def tone_pick(t, a, b):
+    return a if t.v else b
+
+
+def if_then_else(c, a, b):
+    return a if c else b
+
+
+def level_of(x):
+    return Level(x)
+
+
+def level_add(l, x):
+    return int(x) + l.v
+
+
+def to_float(x):
+    return float(x) / 2.0
+
+
+def fl_add(f, x):
+    return int(x) + int(f)
+
+
+def eph_small():
+    return random.randint(-3, 3)
+
+
+def _make_typed_pset(user):
+    # the supertype `int` is used for the first time AFTER several terminals/primitives of its subtype `bool`
+    ps = gp.PrimitiveSetTyped("C17TYPEDU" if user else "C17TYPED", [bool, bool, bool], int)
+    ps.addTerminal(True, bool)
+    ps.addTerminal(False, bool)
+    ps.addPrimitive(operator.and_, [bool, bool], bool)
+    ps.addPrimitive(operator.or_, [bool, bool], bool)
+    ps.addPrimitive(operator.not_, [bool], bool)
+    ps.addPrimitive(operator.add, [int, int], int)
+    ps.addPrimitive(operator.mul, [int, int], int)
+    ps.addPrimitive(if_then_else, [bool, int, int], int)
+    ps.addEphemeralConstant("c17_eph_small", eph_small, int)
+    if user:       # a third, user-defined type (a heap-allocated class object)
+        ps.addPrimitive(level_of, [int], Level)
+        ps.addPrimitive(level_add, [Level, int], int)
+        ps.addTerminal(Level(1), Level, name="L1")
+        ps.addTerminal(Level(2), Level, name="L2")
+        ps.addPrimitive(shade_of, [int], Shade)
+        ps.addPrimitive(shade_add, [Shade, int], int)
+        ps.addTerminal(Shade(1), Shade, name="S1")
+        ps.addPrimitive(tone_of, [bool], Tone)
+        ps.addPrimitive(tone_pick, [Tone, int, int], int)
+        ps.addTerminal(Tone(True), Tone, name="T1")
+    else:          # a third builtin type
+        ps.addPrimitive(to_float, [int], float)
+        ps.addPrimitive(fl_add, [float, int], int)
+        ps.addTerminal(0.5, float)
+        ps.addTerminal(1.5, float)
+    return ps
+
+
+TPSET = _make_typed_pset(False)
+TPSET_USER = _make_typed_pset(True)
+_TCASES = [(a, b, c) for a in (False, True) for b in (False, True) for c in (False, True)]
+
+
+def eval_typed_user(ind):
+    return eval_typed(ind, TPSET_USER)
+
+
+def eval_typed(ind, pset=None):
+    f = gp.compile(ind, TPSET if pset is None else pset)
+    err = 0
+    for a, b, c in _TCASES:
+        try:
+            err += abs(int(f(a, b, c)) - (int(a) + 2 * int(b and c)))
+        except (OverflowError, ValueError, TypeError):
+            err += 1000
+    return (float(min(err, 10 ** 9)),)
+
+
+class GPTyped(Family):
+    name = "gp_typed"
+    MU = 12
+    NGEN = 4
+    SMALL = {"MU": 4}
+    HASH_SENSITIVE = True      # compared across interpreters started with DIFFERENT string-hash seeds
+    pset = TPSET
+    evaluate = staticmethod(eval_typed)
+
+    def setup(self):
+        TPSET = self.pset
+        tb = self.toolbox
+        tb.register("expr", gp.genHalfAndHalf, pset=TPSET, min_=1, max_=3)
+        tb.register("individual", tools.initIterate, IndTyped, tb.expr)
+        tb.register("population", tools.initRepeat, list, tb.individual)
+        tb.register("evaluate", self.evaluate)
+        tb.register("select", tools.selTournament, tournsize=3)
+        tb.register("mate", gp.cxOnePoint)
+        tb.register("expr_mut", gp.genFull, min_=0, max_=2)
+        tb.register("mutate", gp.mutUniform, expr=tb.expr_mut, pset=TPSET)
+        tb.register("mutate_node", gp.mutNodeReplacement, pset=TPSET)
+        tb.register("mutate_insert", gp.mutInsert, pset=TPSET)
+        for alias in ("mate", "mutate", "mutate_insert"):
+            tb.decorate(alias, gp.staticLimit(key=operator.attrgetter("height"), max_value=5))
+
+    def init(self, seed, mapper=map):
+        seed_all(seed)
+        pop = self.toolbox.population(n=self.MU)
+        st = {"gen": 0, "population": pop, "halloffame": tools.HallOfFame(2), "logbook": tools.Logbook()}
+        n = evaluate_invalid(pop, self.toolbox.evaluate, mapper)
+        st["halloffame"].update(pop)
+        self.record(st, pop, n)
+        return st
+
+    def step(self, st, mapper=map):
+        tb = self.toolbox
+        st["gen"] += 1
+        off = tb.select(st["population"], len(st["population"]))
+        off = algorithms.varAnd(off, tb, getattr(self, "CXPB", 0.6), 0.4)
+        for i, ind in enumerate(off):
+            if random.random() < 0.5:
+                off[i], = (tb.mutate_node, tb.mutate_insert)[(i + st["gen"]) % 2](off[i])
+                del off[i].fitness.values
+        n = evaluate_invalid(off, tb.evaluate, mapper)
+        st["halloffame"].update(off)
+        st["population"] = off
+        self.record(st, off, n)
+        return st
+
+
+class GPTypedUser(GPTyped):
+    """Same with a USER-DEFINED third type (a heap-allocated class object: anything ordered by the addresses of type
+    objects — F31, gp.cxOnePoint drawing from a set of classes — depends on the interpreter's allocation history)."""
+    name = "gp_typed_user"
+    MU = 30
+    NGEN = 8
+    CXPB = 0.9
+    pset = TPSET_USER
+    evaluate = staticmethod(eval_typed_user)
 
 
 # ---- 5b. evolution strategy on float32 numpy individuals --------------------------------------------
@@ -666,8 +849,13 @@ def shared_inputs_fp():
 
 FAMILIES = dict((f.name, f) for f in (GAList, NSGA2, SPEA2, NSGA3Mem, GPEph, CMAES, CMA1pL, MOCMA,
                                        CMAESShared, CMA1pLShared, MOCMAShared, ESNumpy32, CMAESBig,
-                                       MOCMALt, MOCMAGt, GAStream))
-EXTRA = ["es_np32", "cma_es_big", "mo_cma_lt", "mo_cma_gt", "ga_stream"]
+                                       MOCMALt, MOCMAGt, GAStream, GPTyped, GPTypedUser))
+PENDING = []
+EXTRA = ["es_np32", "cma_es_big", "mo_cma_lt", "mo_cma_gt", "ga_stream", "gp_typed", "gp_typed_user"]
+
+
+def hash_sensitive(family):
+    return (not family.startswith("pk_")) and bool(getattr(FAMILIES[family.partition(":")[0]], "HASH_SENSITIVE", False))
 
 
 def ngen_for(family, default):
